@@ -196,12 +196,26 @@ func checkC07(p *Prog, r *Report) {
 	}
 	if f := p.Fn("Agent.getBestValidCandidatePair"); r.Anchor("Agent.getBestValidCandidatePair", f != nil) {
 		n := 0
+		// the result variable(s): whatever the function returns
+		results := map[types.Object]bool{}
+		walkBody(f, func(x ast.Node) bool {
+			if rs, ok := x.(*ast.ReturnStmt); ok {
+				for _, e := range rs.Results {
+					if id, ok := unparen(e).(*ast.Ident); ok {
+						if o := p.ObjOf(id); o != nil {
+							results[o] = true
+						}
+					}
+				}
+			}
+			return true
+		})
 		walkBody(f, func(x ast.Node) bool {
 			as, ok := x.(*ast.AssignStmt)
-			if !ok || len(as.Lhs) != 1 {
+			if !ok || len(as.Lhs) != 1 || len(as.Rhs) != 1 || p.isNilExpr(as.Rhs[0]) {
 				return true
 			}
-			if id, ok := as.Lhs[0].(*ast.Ident); !ok || id.Name != "best" {
+			if id, ok := as.Lhs[0].(*ast.Ident); !ok || !results[p.ObjOf(id)] {
 				return true
 			}
 			n++
